@@ -65,19 +65,9 @@ def ViewExact (w : W) : Prop :=
 
 theorem desiredKeys_of_desired (t : RT) (c : String) (r : KRoute) (h : t.desired c = some r) : c ∈ t.desiredKeys := by
   unfold RT.desiredKeys
-  refine List.mem_filter.2 ⟨?_, by simp [h]⟩
-  rw [List.mem_eraseDups]
+  rw [← has_keys]
   unfold RT.desired at h
-  cases hb : t.best c with
-  | none => rw [hb] at h; simp at h
-  | some p =>
-    have := (best_spec t c p hb).1
-    unfold RT.cands at this
-    obtain ⟨w, hw, hwp⟩ := List.mem_filterMap.1 this
-    split at hwp
-    · rename_i hc
-      exact List.mem_map.2 ⟨w, hw, by simpa using hc⟩
-    · simp at hwp
+  simp [Map.has, h]
 
 /-- From an exact view, the two passes (no error, no interface queued) leave exactly the desired routes among
 the routes Felix owns or wants. -/
